@@ -683,6 +683,8 @@ func (f *fsm) rulesL3(s *oblig.Set, reach map[*ssa.Function]bool, eofState *ssa.
 		if oke {
 			t := f.T[esc.next]['"']
 			check("L3", fmt.Sprintf("lexer.%s / escaped quote", f.name[esc.next]), f.pos(esc.next), !t.err && !t.emit && !t.adv && t.next == st, "an escaped quote stays inside the literal", "an escaped quote ends the literal")
+			t = f.T[esc.next]['\\']
+			check("L3", fmt.Sprintf("lexer.%s / escaped backslash", f.name[esc.next]), f.pos(esc.next), !t.err && !t.emit && !t.adv && t.next == st, "a backslash escapes exactly one character: an escaped backslash is an ordinary character of the literal", "an escaped backslash starts another escape: the quote after \\\\ does not close the literal and the literal swallows the text up to the next quote")
 		}
 	}
 	// comments: everything up to the line break / end of input is skipped
